@@ -1127,6 +1127,51 @@ fn const_entry<'tcx>(cx: &Cx<'tcx>, did: DefId) -> Option<String> {
     } else if let Ok(cv) = tcx.const_eval_poly(did) {
         use rustc_middle::mir::ConstValue;
         match cv {
+            ConstValue::Scalar(rustc_middle::mir::interpret::Scalar::Ptr(ptr, _)) => {
+                // `&'static [u8; N]` and friends: the pointee's bytes
+                if let ty::Ref(_, inner, _) = t.kind() {
+                    if !matches!(inner.kind(), ty::Slice(_) | ty::Str | ty::Dynamic(..)) {
+                        if let Ok(l) = tcx.layout_of(env.as_query_input(*inner)) {
+                            let sz = l.size.bytes() as usize;
+                            let (prov, off) = ptr.into_raw_parts();
+                            if let Some(rustc_middle::mir::interpret::GlobalAlloc::Memory(m)) = tcx.try_get_global_alloc(prov.alloc_id()) {
+                                let a = m.inner();
+                                let start = off.bytes() as usize;
+                                if sz <= 4096 && start + sz <= a.len() && a.provenance().ptrs().is_empty() {
+                                    let bytes = a.inspect_with_uninit_and_ptr_outside_interpreter(start..start + sz);
+                                    s.push_str(",\"pbytes\":\"");
+                                    for b in bytes {
+                                        let _ = write!(s, "{:02x}", b);
+                                    }
+                                    s.push('"');
+                                }
+                            }
+                        }
+                    }
+                }
+            }
+            ConstValue::Slice { alloc_id, meta } => {
+                // `&'static str` / `&'static [u8]`: the pointee's bytes
+                if let ty::Ref(_, inner, _) = t.kind() {
+                    let elem = match inner.kind() {
+                        ty::Str => Some(1usize),
+                        ty::Slice(e) if matches!(e.kind(), ty::Uint(ty::UintTy::U8)) => Some(1usize),
+                        _ => None,
+                    };
+                    if let (Some(_), Some(rustc_middle::mir::interpret::GlobalAlloc::Memory(m))) = (elem, tcx.try_get_global_alloc(alloc_id)) {
+                        let a = m.inner();
+                        let n = meta as usize;
+                        if n <= 4096 && n <= a.len() && a.provenance().ptrs().is_empty() {
+                            let bytes = a.inspect_with_uninit_and_ptr_outside_interpreter(0..n);
+                            s.push_str(",\"pbytes\":\"");
+                            for b in bytes {
+                                let _ = write!(s, "{:02x}", b);
+                            }
+                            s.push('"');
+                        }
+                    }
+                }
+            }
             ConstValue::Scalar(sc) => {
                 if let Ok(si) = sc.try_to_scalar_int() {
                     let bits = si.to_bits_unchecked();
